@@ -32,7 +32,7 @@ static int gen(const char* file)
         for (int v = 0; v < 2 && fail.empty(); v++) {
             double R0 = R0s[v];
             int nrA   = t["nrAniso"].num();
-            double pct = fl == nrA ? 1.0 : (fl + 0.5) / nrA;
+            double pct = fl == nrA ? 1.0 : (v == 1 && fl == 0) ? 0.0 : (fl + 0.5) / nrA; // second variant: the refinement radius exactly at R0 (and at Rmax for fl = nr)
             double rr  = a == 0 ? 0.0 : R0 + pct * (Rmax - R0); // a = 0: the refinement radius is ignored (CLI default 0)
             try {
                 PolarGrid G(R0, Rmax, nrexp, ntexp == 0 ? -1 : ntexp, rr, a, d);
